@@ -178,9 +178,7 @@ def case_sig(case):
     pages = [p for g in case["rgs"] for p in g["pages"]]
     widths = [p["index_width"] for p in pages if p["enc"] == "DICT"]
     bp = any(r[0] == "bp" for p in pages for r in p["index_runs"])
-    if case.get("read") == "categories" and any(p["v"] == 2 for p in pages):
-        cause = "categories= read of version-2 dictionary pages (first run header skipped, output item size = bit width)"
-    elif case.get("read") == "categories" and len({json.dumps([g["pad"], g["dict"]]) for g in case["rgs"] if g["b"] >= g["a"]}) > 1:
+    if case.get("read") == "categories" and len({json.dumps([g["pad"], g["dict"]]) for g in case["rgs"] if g["b"] >= g["a"]}) > 1:
         cause = "categories= read of row groups whose dictionaries differ (the last dictionary read labels every row group)"
     elif any(p["enc"] == "DELTA" for p in pages):
         cause = "delta-binary-packed page"
